@@ -123,12 +123,27 @@ theorem dEf_of (pc : Pc) (h : dEnd pc = true) : dflag pc = true := by cases pc <
 theorem cwaits_proj (sh : Sh) (pc : Pc) (h : cwaits pc = true) : MpscA.waits (proj sh pc) = true := by
   cases pc <;> simp_all [cwaits, proj, MpscA.waits]
 
-theorem Inv.psetA {s : St} (h : Inv s) (t : Tid) (v : Nat) (b : Bid) (i : Nat) (hp : s.pcs t = .pSet v b i) :
+theorem wr_cases (pc : Pc) (v : Nat) (b : Bid) (i : Nat) (h : wrSlot pc = some (v, b, i)) :
+    pc = .pWrite v b i ∨ pc = .pSet v b i := by
+  cases pc <;> simp [wrSlot] at h <;> obtain ⟨rfl, rfl, rfl⟩ := h <;> simp
+
+theorem wr_proj (sh : Sh) (pc : Pc) (v : Nat) (b : Bid) (i : Nat) (h : wrSlot pc = some (v, b, i)) :
+    MpscA.pubSlot (proj sh pc) = some (sh.start b + i, v) := by
+  rcases wr_cases pc v b i h with rfl | rfl <;> rfl
+
+theorem Inv.psetA {s : St} (h : Inv s) (t : Tid) (v : Nat) (b : Bid) (i : Nat) (hp : wrSlot (s.pcs t) = some (v, b, i)) :
     b * s.sh.B + i < s.sh.a.res ∧ s.sh.a.ready (b * s.sh.B + i) = false ∧ s.sh.a.head ≤ b * s.sh.B + i := by
   have hb := (h.pset t v b i hp).1
-  have := h.ainv.pub t (s.sh.start b + i) v (by simp only; rw [h.sim t, hp]; rfl)
+  have := h.ainv.pub t (s.sh.start b + i) v (by simp only; rw [h.sim t]; exact wr_proj _ _ _ _ _ hp)
   rw [h.geo b hb] at this
   exact ⟨this.1, this.2.2.1, this.2.2.2⟩
+
+/-- two producers between CAS and `ready` store never own the same slot -/
+theorem Inv.psU {s : St} (h : Inv s) (t u : Tid) (v v' : Nat) (b : Bid) (i : Nat)
+    (hp : wrSlot (s.pcs t) = some (v, b, i)) (hq : wrSlot (s.pcs u) = some (v', b, i)) : t = u := by
+  apply h.ainv.pub1 t u (s.sh.start b + i) v v'
+  · simp only; rw [h.sim t]; exact wr_proj _ _ _ _ _ hp
+  · simp only; rw [h.sim u]; exact wr_proj _ _ _ _ _ hq
 
 theorem Inv.waitA {s : St} (h : Inv s) (t : Tid) (hp : cwaits (s.pcs t) = true) : s.sh.a.head < s.sh.a.lin := by
   apply h.ainv.wt t
@@ -149,7 +164,8 @@ theorem Inv.refR {s : St} (h : Inv s) (u : Tid) (b : Bid) (hr : refBlk (s.pcs u)
   generalize hp : s.pcs u = pc at hr
   cases pc <;> simp only [refBlk, Option.some.injEq] at hr <;> (try contradiction)
   · next v w => subst hr; exact (h.pcas u v w hp).1
-  · next v b' i => subst hr; exact (h.pset u v b' i hp).1
+  · next v b' i => subst hr; exact (h.pset u v b' i (by rw [hp]; rfl)).1
+  · next v b' i => subst hr; exact (h.pset u v b' i (by rw [hp]; rfl)).1
 
 /-- the head block is not beyond the tail block (+1 when the tail block is exhausted) -/
 theorem Inv.hbT {s : St} (h : Inv s) (hc : s.sh.created = true) :
@@ -175,9 +191,10 @@ theorem Inv.hbT {s : St} (h : Inv s) (hc : s.sh.created = true) :
     split at h5 <;> omega
 
 /-- a producer's slot lies in a block from the head block on -/
-theorem Inv.psetB {s : St} (h : Inv s) (t : Tid) (v : Nat) (b : Bid) (i : Nat) (hp : s.pcs t = .pSet v b i) :
+theorem Inv.psetB {s : St} (h : Inv s) (t : Tid) (v : Nat) (b : Bid) (i : Nat) (hp : wrSlot (s.pcs t) = some (v, b, i)) :
     s.sh.headBlk ≤ b ∧ (inRetire (s.pcs 0) = true → s.sh.headBlk + 1 ≤ b) := by
-  have hc : s.sh.created = true := h.crt t (by rw [hp]; simp) (by rw [hp]; rfl)
+  have hc : s.sh.created = true := by
+    rcases wr_cases _ _ _ _ hp with hh | hh <;> exact h.crt t (by rw [hh]; simp) (by rw [hh]; rfl)
   have h0 := h.psetA t v b i hp
   have h1 := h.hb1 hc
   have h2 := h.hd hc
